@@ -158,7 +158,7 @@ func main() {
 			fmt.Println("normaliser disabled")
 			return
 		}
-		fmt.Printf("candidates=%v\nexpanded=%v\nremoved=%v\nrounds=%d\nrenamed=%v\nsplit=%v\nfailed=%q\n", p.Normal.Candidates, p.Normal.Expanded, p.Normal.Removed, p.Normal.Rounds, p.Normal.Renamed, p.Normal.Split, p.Normal.Failed)
+		fmt.Printf("candidates=%v\nexpanded=%v\nremoved=%v\nrounds=%d\nrenamed=%v\ntypes=%v\nsplit=%v\nfailed=%q\n", p.Normal.Candidates, p.Normal.Expanded, p.Normal.Removed, p.Normal.Rounds, p.Normal.Renamed, p.Normal.Types, p.Normal.Split, p.Normal.Failed)
 		for _, s := range p.Normal.Skipped {
 			fmt.Println("skipped:", s)
 		}
